@@ -3,18 +3,20 @@
 (* The Wilkinson term algebra of formulaic (docs/guides/grammar.md and     *)
 (* parser/types/term.py, ordered_set.py).                                  *)
 (*                                                                         *)
-(* A factor is a record [e |-> expression string, m |-> eval method];      *)
+(* A factor is a record [e |-> expression string, m |-> eval method, ...]; *)
 (* two factors are the same factor iff their expressions are equal.  A     *)
 (* term is a sequence of factors without repeated expressions, in order of *)
 (* first appearance; its identity is the SET of its factor expressions.    *)
 (* A term list is a sequence of terms without repeated identities          *)
 (* ("ordered set").                                                        *)
 (***************************************************************************)
-EXTENDS Naturals, Sequences, FiniteSets
+EXTENDS Integers, Sequences, FiniteSets
 
 Range(s) == {s[i] : i \in DOMAIN s}
 
-Fac(e, m) == [e |-> e, m |-> m]
+\* num: the literal is a number; ival: its value when it is an integer literal, else -1
+Fac(e, m) == [e |-> e, m |-> m, num |-> FALSE, ival |-> -1]
+LitFac(e, num, ival) == [e |-> e, m |-> "literal", num |-> num, ival |-> ival]
 Exprs(t) == {t[i].e : i \in DOMAIN t}           \* identity of a term
 ExprSeq(t) == [i \in DOMAIN t |-> t[i].e]
 
